@@ -138,6 +138,9 @@ type VC struct {
 	curVars   map[string]ssa.Value
 	curAddr   map[string]ssa.Value
 	curHeap   *Heap
+	hdrVenv   map[*ssa.BasicBlock]map[string]ssa.Value
+	hdrAenv   map[*ssa.BasicBlock]map[string]ssa.Value
+	paramCell map[string]ssa.Value
 	allocID   map[ssa.Value]string
 	fvRoot    map[*ssa.FreeVar]string // root id term a free variable is bound to ("" = unknown)
 	preEnv    *SpecEnv
@@ -789,6 +792,11 @@ func (v *VC) oblige(kind, label, guard, cond string, pos token.Pos, src string) 
 	var p token.Position
 	if pos.IsValid() {
 		p = v.fn.Prog.Fset.Position(pos)
+	}
+	if strings.HasSuffix(p.Filename, ".pb.go") && kind != "ensures" {
+		// inlined accessor of generated protobuf code: outside the verified text
+		v.note("generated protobuf code (*.pb.go) is assumed not to panic; oneof wrappers are non-nil (obligation kind %s skipped there)", kind)
+		return
 	}
 	v.obligs = append(v.obligs, Oblig{Name: name, Kind: kind, Label: label, Guard: guard, Cond: cond, Pos: p, Offset: v.body.Len(), Src: src})
 }
